@@ -50,7 +50,7 @@ inductive Val (α : Type) where
   | int (z : Int)        -- `int` / `bool`
   | flt (x : α)          -- finite `float`
   | str (s : String)     -- `str` (also the literal of a list-valued parameter)
-deriving Repr
+deriving Repr, DecidableEq
 
 inductive Err where
   | mandatory            -- ValueError: mandatory parameter missing
@@ -209,14 +209,14 @@ structure Dev (α : Type) where
   model : String
   idx : Key
   cells : List (Val α)
-deriving Repr
+deriving Repr, DecidableEq
 
 /-- a row of a case file: the model it belongs to, the idx cell, the parameter cells -/
 structure Row (α : Type) where
   model : String
   idx : Key
   cells : List (Val α)
-deriving Repr
+deriving Repr, DecidableEq
 
 /-- `while True: idx = model + '_' + str(count + 1); if idx not in used: break; count += 1`.
 A candidate that was found in `used` is never looked at again, so it is erased: this is the same
